@@ -431,6 +431,24 @@ class Check:
             self.unrec(exc.rule or rule, exc.what, exc.where)
         return None
 
+    def advisory(self, label, fn, *args, **kw):
+        """Run a shape read-back AFTER a semantic run decided the same clause positively: what the read-back cannot recognise, or reads differently, becomes a note
+        (a differently spelled but equivalent implementation must not raise an alarm); its OK instances are kept."""
+        bu, bf, bi = len(self.unrecognised), len(self.findings), len(self.instances)
+        res = None
+        try:
+            res = fn(*args, **kw)
+        except Unrecognised as exc:
+            self.note(f'{label}: shape read-back not possible ({exc.rule or ""} {exc.what}); decided by the evaluation')
+        for u in self.unrecognised[bu:]:
+            self.note(f"{label}: shape read-back: {u['rule']} {u['what']}")
+        del self.unrecognised[bu:]
+        for f in self.findings[bf:]:
+            self.note(f'{label}: shape read-back not confirmed by the evaluation, ignored: {f.rule} {f.what[:160]}')
+        del self.findings[bf:]
+        self.instances[bi:] = [i for i in self.instances[bi:] if i['verdict'] == 'OK']
+        return res
+
     # -- finish
     def finish(self, explanation, enumeration_rule, replay_key=None):
         # instance floors: a rule that matched fewer sites than confirmed by hand is broken, not passing
